@@ -163,7 +163,7 @@ namespace GeographicLib {
       const {
       if (!Init())
         return;
-      if (M.end() == M.begin() + dim2_) {
+      if (M.size() == dim2_) {
         real t[dim2_];
         IntForward(lat, lon, h, X, Y, Z, t);
         std::copy(t, t + dim2_, M.begin());
@@ -226,7 +226,7 @@ namespace GeographicLib {
       const {
       if (!Init())
         return;
-      if (M.end() == M.begin() + dim2_) {
+      if (M.size() == dim2_) {
         real t[dim2_];
         IntReverse(X, Y, Z, lat, lon, h, t);
         std::copy(t, t + dim2_, M.begin());
